@@ -199,7 +199,9 @@ def _p1(run, M, base):
         vn.ev_Attribute = ev_attr
         return vn.run(stmts, State({"self.shape": (T.sym("s0", real=True), T.sym("s1", real=True))}))
     ref_src = "for i1, i2 in zip(input.shape, self.shape):\n    if i2 != -1 and i1 != i2:\n        raise ValueError('x')\n"
-    sig = lambda outs: sorted((o.status, tuple(sorted(repr(c.key()) for c in o.conds))) for o in outs)
+    # a guard is characterised by the inputs it lets through: the non-raising paths (a raise written as one `if any(..)` or as one raise per
+    # dimension lets the same inputs through); every other path must raise
+    sig = lambda outs: (sorted(tuple(sorted(repr(c.key()) for c in o.conds)) for o in outs if o.status != "raise"), any(o.status == "raise" for o in outs))
     code = run_guard(g.body)
     run.check(sig(code) == sig(run_guard(ast.parse(ref_src).body)), "P1", "Prox._check_shape", g.loc(),
               "raises exactly when a dimension differs from the advertised shape",
